@@ -12,7 +12,7 @@ From RX Require Import Generated.
 From RX.Model Require Import Base CharClass Stream Tokenizer Doc Builder Parse Api.
 From RX.Spec Require Import Tree.
 From RX.Model Require Import Debug.
-From RX.Proofs Require Import ApiTotal PositionProofs DebugTotal.
+From RX.Proofs Require Import ApiTotal PositionProofs DebugTotal StrictModel StrictApi Strict.
 Open Scope N_scope.
 
 (* ---- Proofs/ApiTotal.v ---- *)
@@ -59,3 +59,22 @@ Theorem C10_debug_stack_bounded :
   parse text opt = Ok d -> debug_document d = Ok (lines, maxh) -> maxh <= len_N (d_nodes d).
 Proof. exact debug_stack_bounded. Qed.
 Print Assumptions C10_debug_stack_bounded.
+
+(* ---- Proofs/Strict.v ---- *)
+Theorem C10_site_debug_depth_unreachable :
+  forall d, debug_document_s d = debug_document d.
+Proof. exact site_debug_depth_unreachable. Qed.
+Print Assumptions C10_site_debug_depth_unreachable.
+
+(* ---- Proofs/StrictApi.v ---- *)
+Theorem C10_site_descendants_unreachable :
+  forall text opt d id it0,
+  valid_utf8_b text = true -> nodes_limit opt <= u32_max -> parse text opt = Ok d ->
+  descendants d id = Ok it0 ->
+  DescInv d it0 /\
+  forall it, DescInv d it ->
+    (desc_next_s it = Ok (sit_next it) /\ DescInv d (snd (sit_next it))) /\
+    (desc_next_back_s it = Ok (sit_next_back it) /\ DescInv d (snd (sit_next_back it))) /\
+    (forall n, desc_nth_s n it = Ok (sit_nth n it) /\ DescInv d (snd (sit_nth n it))).
+Proof. exact site_descendants_unreachable. Qed.
+Print Assumptions C10_site_descendants_unreachable.
